@@ -201,6 +201,25 @@ def oracle(case, impl):
         if ev[0] == "pull" and impl["answers"][gi] != ref["answers"][gi]:
             return ("a pull must return what an output with unlimited history returns",
                     {"event": gi, "bounded": impl["answers"][gi], "unlimited": ref["answers"][gi]})
+    # independent of the package: the value served is a publication nearest to the time that reaches the output (for end
+    # points behind pass-through adapters the request itself; behind DelayToPush min(request, newest publication))
+    seen = []
+    for gi, ev in enumerate(case["events"]):
+        if ev[0] == "push":
+            seen.append(ev[1])
+            continue
+        a = impl["answers"][gi]
+        if case["endpoints"][ev[1]] in PUSH_BASED or not a or "ok" not in a or not seen:
+            continue
+        r = effective_request(case, gi)
+        if not (seen[0] <= r <= seen[-1]):
+            continue
+        dmin = min(abs(r - p) for p in seen)
+        nearest = [k for k, p in enumerate(seen) if abs(r - p) == dmin]
+        if a["ok"] not in nearest:
+            return ("a pull returns the publication nearest to the time that reaches the output (what an output with "
+                    "unlimited history returns)", {"event": gi, "end_point": case["endpoints"][ev[1]], "request": ev[2],
+                                                   "reaches_the_output_for": r, "served_publication": a["ok"], "nearest": nearest})
     # bound, evaluated after every event once every end point has pulled
     pubs = []
     last = [None] * len(case["endpoints"])
